@@ -337,11 +337,12 @@ class DB:
 class Query:
     """Evaluation of one statement against a DB with bound parameters."""
 
-    def __init__(self, db, params):
+    def __init__(self, db, params, row_var=None):
         self.db = db
         self.params = params          # list of Val
         self.ex = db.ex
         self.st = db.st
+        self.row_var = row_var        # bulk statements: the parameters are functions of this row index
 
     def pval(self, k, want_sort):
         v = self.params[k]
@@ -414,15 +415,26 @@ class Query:
             raise Unsupported("aggregate scalar subquery")
         if len(cols) != 1:
             raise Unsupported("scalar subquery with several columns")
-        ch = fresh("sq_choice", I)
         r = fresh("sq_r", I)
+        if self.row_var is not None:
+            # bulk statement: one choice per parameter row
+            chf = z3.Function(fresh("sq_choice", I).decl().name(), I, I)
+            ch = chf(self.row_var)
+            qv = [self.row_var, r]
+        else:
+            ch = fresh("sq_choice", I)
+            qv = [r]
         pr = z3.And(self.db.live(table, r), self.cond(where, table, r))
         pch = z3.And(self.db.live(table, ch), self.cond(where, table, ch))
         if order:
             # the first row in the given order (total when it ends in the primary key)
-            self.st.assume(z3.ForAll([r], z3.Implies(pr, z3.And(pch, z3.Or(r == ch, self.order_gt(order, table, ch, r))))))
+            body = z3.Implies(pr, z3.And(pch, z3.Or(r == ch, self.order_gt(order, table, ch, r))))
         else:
-            self.st.assume(z3.ForAll([r], z3.Implies(pr, pch)))
+            body = z3.Implies(pr, pch)
+        if self.row_var is not None:
+            self.st.assume(z3.ForAll(qv, body, patterns=[z3.MultiPattern(ch, self.db.live(table, r))]))
+        else:
+            self.st.assume(z3.ForAll(qv, body))
         return self.db.col(table, cols[0], ch), z3.Not(pch)
 
 
